@@ -179,9 +179,9 @@ func classCase(c *fw.Ctx, t shimType) {
 		csproto.Size(mm)
 		csproto.Marshal(mm)
 		if growMessage(reflect.ValueOf(mm)) {
+			sz := csproto.Size(mm) // first, so that nothing has refreshed a size cache since the change
 			b4, err := csproto.Marshal(mm)
 			want, werr := t.ops.marshal(t.ops.clone(mm))
-			sz := csproto.Size(mm)
 			m5 := t.fresh()
 			if err != nil || werr != nil || sz != len(b4) || sz != t.ops.size(t.ops.clone(mm)) || t.ops.unmarshal(b4, m5) != nil || !t.ops.equal(mm, m5) {
 				fail("stale-after-mutation", "after Size/Marshal, a field change, and Size/Marshal again: size or bytes are not those of the current contents", fmt.Sprintf("size %d bytes %x", len(want), want), fmt.Sprintf("size %d bytes %x err=%v", sz, b4, err))
